@@ -21,30 +21,101 @@ type Spec struct {
 	ID       int        `json:"id"`
 	Reweight bool       `json:"reweight"`
 	Seq      vk.SeqSpec `json:"seq,omitempty"`
+	// Order, when non-zero, permutes the amino-acid list and every codon list of the built table
+	// (deterministically from the value): a table as another process, whose map iteration went another
+	// way, would have written it. Nothing a table means depends on these orders.
+	Order uint64 `json:"order,omitempty"`
+	// Twice (with Reweight): the table value is first re-weighted from a sequence with the same number of
+	// codons as Seq but another composition (every codon of Seq replaced by its successor in the list of
+	// 64), handed to the caller's function, and then re-weighted in place from Seq: the table a caller
+	// holds after changing their mind. What it means is given by Seq alone.
+	Twice bool `json:"twice,omitempty"`
 }
 
 // Build returns a detached table for the spec.
-func (s Spec) Build() codon.Table {
+func (s Spec) Build() codon.Table { return s.BuildWith(nil) }
+
+// BuildWith is Build; between, if not nil, is called with the table as it is after the first of the two
+// re-weightings of a Twice spec.
+func (s Spec) BuildWith(between func(codon.Table)) codon.Table {
 	b, err := json.Marshal(codon.GetCodonTable(s.ID))
 	if err != nil {
 		panic(err)
 	}
 	t := codon.ParseCodonJSON(b)
+	if s.Order != 0 {
+		x := s.Order
+		next := func(n int) int { // splitmix64
+			x += 0x9E3779B97F4A7C15
+			z := x
+			z = (z ^ (z >> 30)) * 0xBF58476D1CE4E5B9
+			z = (z ^ (z >> 27)) * 0x94D049BB133111EB
+			z ^= z >> 31
+			return int(z % uint64(n))
+		}
+		for i := len(t.AminoAcids) - 1; i > 0; i-- {
+			j := next(i + 1)
+			t.AminoAcids[i], t.AminoAcids[j] = t.AminoAcids[j], t.AminoAcids[i]
+		}
+		for _, aa := range t.AminoAcids {
+			for i := len(aa.Codons) - 1; i > 0; i-- {
+				j := next(i + 1)
+				aa.Codons[i], aa.Codons[j] = aa.Codons[j], aa.Codons[i]
+			}
+		}
+	}
 	if s.Reweight {
-		t = t.OptimizeTable(s.Seq.String())
+		seq := s.Seq.String()
+		if s.Twice {
+			t = t.OptimizeTable(otherComposition(seq))
+			if between != nil {
+				between(t)
+			}
+		}
+		t = t.OptimizeTable(seq)
 	}
 	return t
 }
 
+// otherComposition replaces every complete upper-case A/C/G/T codon of seq by its successor in ref.AllCodons.
+func otherComposition(seq string) string {
+	codons := ref.AllCodons()
+	index := map[string]int{}
+	for i, c := range codons {
+		index[c] = i
+	}
+	var b strings.Builder
+	i := 0
+	for ; i+3 <= len(seq); i += 3 {
+		if k, ok := index[strings.ToUpper(seq[i:i+3])]; ok {
+			b.WriteString(codons[(k+1)%len(codons)])
+		} else {
+			b.WriteString(seq[i : i+3])
+		}
+	}
+	b.WriteString(seq[i:])
+	return b.String()
+}
+
 func (s Spec) String() string {
 	if !s.Reweight {
+		if s.Order != 0 {
+			return fmt.Sprintf("default table %d (amino acids and codons listed in another order)", s.ID)
+		}
 		return fmt.Sprintf("default table %d", s.ID)
 	}
 	q := s.Seq.String()
 	if len(q) > 60 {
 		q = fmt.Sprintf("%s…(%d letters)", q[:60], len(q))
 	}
-	return fmt.Sprintf("table %d re-weighted from %q", s.ID, q)
+	extra := ""
+	if s.Order != 0 {
+		extra += ", amino acids and codons listed in another order"
+	}
+	if s.Twice {
+		extra += ", after an earlier re-weighting of the same value"
+	}
+	return fmt.Sprintf("table %d re-weighted from %q%s", s.ID, q, extra)
 }
 
 // Flat is a table as maps.
@@ -115,6 +186,9 @@ func DrawSpec(t *rapid.T, name string, cover bool, maxLen int) Spec {
 // DrawSpecFor is DrawSpec for a given table id.
 func DrawSpecFor(t *rapid.T, name string, cover bool, maxLen int, id int) Spec {
 	s := Spec{ID: id}
+	if rapid.IntRange(0, 2).Draw(t, name+"_other_order") == 0 {
+		s.Order = 1 + rapid.Uint64Range(0, 1<<62).Draw(t, name+"_order")
+	}
 	if rapid.IntRange(0, 3).Draw(t, name+"_reweight") > 0 {
 		s.Reweight = true
 		body := DrawCoding(t, name+"_coding", maxLen)
@@ -142,6 +216,7 @@ func DrawSpecFor(t *rapid.T, name string, cover bool, maxLen int, id int) Spec {
 		} else {
 			s.Seq = body
 		}
+		s.Twice = rapid.IntRange(0, 3).Draw(t, name+"_twice") == 0
 	}
 	return s
 }
